@@ -54,7 +54,9 @@ Cast == /\ IsEv("cast") /\ UNCHANGED decl
 NullType == IsEv("nulltype") /\ E.exc = "ValueError" /\ UNCHANGED decl
 (* Type objects are not values to be exchanged (they carry their instances and cached answers): swap refuses them *)
 SwapTypes == IsEv("swaptypes") /\ E.exc = "TypeError" /\ UNCHANGED decl
-Next == Reset \/ End \/ Decl \/ RtOk \/ RtTooMany \/ Look \/ Cast \/ NullType \/ SwapTypes
+(* size, alloc, new, del, current, name of a TYPE reach the instances that type declares (and only once each) *)
+Wrappers == IsEv("wrappers") /\ E.exc = "" /\ E.bad = 0 /\ UNCHANGED decl
+Next == Wrappers \/ Reset \/ End \/ Decl \/ RtOk \/ RtTooMany \/ Look \/ Cast \/ NullType \/ SwapTypes
 Spec == Init /\ [][Next]_vars
 Accepted == LET d == TLCGet("stats").diameter IN
             /\ PrintT(<<"TRACE_MATCHED", d - 1, Len(T)>>)
